@@ -3,8 +3,10 @@ package chain
 import (
 	"context"
 	"fmt"
+	vaultState "github.com/oasisprotocol/oasis-core/go/consensus/cometbft/apps/vault/state"
 	"math"
 	"sort"
+	"strings"
 	"time"
 
 	"pgregory.net/rapid"
@@ -125,7 +127,10 @@ type TxGen struct {
 	Actors   []*Actor
 	nonceAdd map[staking.Address]uint64
 	// ExtraActors: vault accounts etc. discovered at run time are not signers.
-	Vaults []staking.Address
+	Vaults    []staking.Address
+	vaultInfo map[staking.Address]*vault.Vault
+	// vaultHolders: per vault, the addresses holding an enabled withdraw policy.
+	vaultHolders map[staking.Address][]staking.Address
 	// Profile weights
 	Profile string
 	// foreignListed: node IDs that an entity transaction generated for THIS block adds to another entity's list.
@@ -134,7 +139,47 @@ type TxGen struct {
 
 // NewTxGen creates a generator for one block.
 func NewTxGen(w *World, v *View, profile string) *TxGen {
-	return &TxGen{W: w, V: v, Actors: w.Actors(), nonceAdd: map[staking.Address]uint64{}, Profile: profile}
+	g := &TxGen{W: w, V: v, Actors: w.Actors(), nonceAdd: map[staking.Address]uint64{}, Profile: profile, vaultInfo: map[staking.Address]*vault.Vault{}, vaultHolders: map[staking.Address][]staking.Address{}}
+	if w.Spec.WithVault {
+		if vs, err := vaultState.NewImmutableState(v.cx.State()).Vaults(v.ctx); err == nil {
+			sort.Slice(vs, func(i, j int) bool { a, b := vs[i].Address(), vs[j].Address(); return string(a[:]) < string(b[:]) })
+			for _, vl := range vs {
+				g.Vaults = append(g.Vaults, vl.Address())
+				g.vaultInfo[vl.Address()] = vl
+				if as, err := vaultState.NewImmutableState(v.cx.State()).AddressStates(v.ctx, vl.Address()); err == nil {
+					var hs []staking.Address
+					for h, st := range as {
+						if !st.WithdrawPolicy.IsDisabled() {
+							hs = append(hs, h)
+						}
+					}
+					sort.Slice(hs, func(i, j int) bool { return string(hs[i][:]) < string(hs[j][:]) })
+					if len(hs) > 0 {
+						g.vaultHolders[vl.Address()] = hs
+					}
+				}
+			}
+		}
+	}
+	return g
+}
+
+// VaultStats returns the number of vaults and of enabled withdraw policies seen in the view.
+func (g *TxGen) VaultStats() (vaults, holders int) {
+	for _, hs := range g.vaultHolders {
+		holders += len(hs)
+	}
+	return len(g.Vaults), holders
+}
+
+// actorByAddr returns the signing actor with the given address, if any.
+func (g *TxGen) actorByAddr(a staking.Address) *Actor {
+	for _, x := range g.Actors {
+		if x.Addr == a {
+			return x
+		}
+	}
+	return nil
 }
 
 var extremeAmounts = func() []quantity.Quantity {
@@ -207,10 +252,13 @@ func (g *TxGen) Gen(t *rapid.T) *TxDesc {
 	note := ""
 	kinds := []string{"transfer", "transfer", "burn", "escrow", "escrow", "reclaim", "reclaim", "allow", "withdraw", "amend", "proposal", "vote", "vote",
 		"vaultCreate", "vaultAction", "refresh", "unfreeze", "freshness", "deregister", "foreign"}
-	if g.Profile == "debond" {
+	if strings.Contains(g.Profile, "debond") {
 		kinds = append(kinds, "escrow", "escrow", "escrow", "reclaim", "reclaim", "reclaim", "reclaim", "reclaim", "reclaim")
 	}
-	if g.Profile == "hostile" {
+	if strings.Contains(g.Profile, "vault") && g.W.Spec.WithVault {
+		kinds = append(kinds, "vaultCreate", "vaultAction", "vaultAction", "vaultAction", "vaultAction", "vaultAction", "withdraw", "withdraw", "withdraw", "withdraw", "fundVault", "fundVault")
+	}
+	if strings.Contains(g.Profile, "hostile") {
 		kinds = append(kinds, "garbage", "garbage", "system", "oversized", "truncated", "newruntime", "newruntime")
 	}
 	kind := rapid.SampledFrom(kinds).Draw(t, "kind")
@@ -247,6 +295,12 @@ func (g *TxGen) Gen(t *rapid.T) *TxDesc {
 	switch kind {
 	case "transfer":
 		method, body = staking.MethodTransfer, &staking.Transfer{To: g.pickAddr(t, "to"), Amount: g.amount(t, bal, "amt")}
+	case "fundVault":
+		to := a.Addr
+		if len(g.Vaults) > 0 {
+			to = g.Vaults[rapid.IntRange(0, len(g.Vaults)-1).Draw(t, "fundVaultIdx")]
+		}
+		method, body = staking.MethodTransfer, &staking.Transfer{To: to, Amount: q(uint64(rapid.SampledFrom([]int{1, 3, 7, 50}).Draw(t, "fundVaultAmt")))}
 	case "burn":
 		method, body = staking.MethodBurn, &staking.Burn{Amount: g.amount(t, bal, "amt")}
 	case "escrow":
@@ -272,6 +326,25 @@ func (g *TxGen) Gen(t *rapid.T) *TxDesc {
 	case "allow":
 		method, body = staking.MethodAllow, &staking.Allow{Beneficiary: g.pickAddr(t, "beneficiary"), Negative: rapid.Bool().Draw(t, "neg"), AmountChange: g.amount(t, bal, "amt")}
 	case "withdraw":
+		if len(g.Vaults) > 0 && rapid.Bool().Draw(t, "withdrawFromVault") {
+			// withdraw from a vault (the vault application's withdraw hook authorizes against the signer's policy and
+			// accounts the amount; the vault may well hold less than the authorized amount)
+			va := g.Vaults[rapid.IntRange(0, len(g.Vaults)-1).Draw(t, "withdrawVault")]
+			if hs := g.vaultHolders[va]; len(hs) > 0 && rapid.IntRange(0, 3).Draw(t, "withdrawByPolicyHolder") > 0 {
+				if x := g.actorByAddr(hs[rapid.IntRange(0, len(hs)-1).Draw(t, "withdrawHolder")]); x != nil {
+					a, acct = x, g.V.Account(x.Addr)
+					bal = &acct.General.Balance
+				}
+			} else if rapid.Bool().Draw(t, "withdrawByLikelyHolder") {
+				x := g.Actors[rapid.IntRange(0, minInt(len(g.Actors)-1, 3)).Draw(t, "withdrawLikelyHolder")]
+				a, acct = x, g.V.Account(x.Addr)
+				bal = &acct.General.Balance
+			}
+			amt := q(uint64(rapid.SampledFrom([]int{0, 1, 5, 10, 11, 1000}).Draw(t, "withdrawVaultAmt")))
+			method, body = staking.MethodWithdraw, &staking.Withdraw{From: va, Amount: amt}
+			note = "from vault"
+			break
+		}
 		from := g.pickActor(t, "withdrawFrom")
 		fb := g.V.Account(from.Addr)
 		amt := g.amount(t, &fb.General.Balance, "amt")
@@ -298,12 +371,28 @@ func (g *TxGen) Gen(t *rapid.T) *TxDesc {
 		method, body = governance.MethodCastVote, &governance.ProposalVote{ID: id, Vote: governance.Vote(rapid.IntRange(0, 4).Draw(t, "vote"))}
 	case "vaultCreate":
 		other := g.pickActor(t, "vaultAdmin2")
-		auth := vault.Authority{Addresses: []staking.Address{a.Addr, other.Addr}, Threshold: uint8(rapid.IntRange(0, 3).Draw(t, "vaultThreshold"))}
+		auth := vault.Authority{Addresses: []staking.Address{a.Addr, other.Addr}, Threshold: uint8(rapid.SampledFrom([]int{1, 1, 1, 2, 0, 3}).Draw(t, "vaultThreshold"))}
 		method, body = vault.MethodCreate, &vault.Create{AdminAuthority: auth, SuspendAuthority: vault.Authority{Addresses: []staking.Address{a.Addr}, Threshold: 1}}
 	case "vaultAction":
 		va := g.pickAddr(t, "vault")
+		nonce := uint64(rapid.IntRange(0, 2).Draw(t, "vaultNonce"))
+		if len(g.Vaults) > 0 && rapid.IntRange(0, 5).Draw(t, "vaultReal") > 0 {
+			// an existing vault, its current action nonce, signed by one of its admins (mostly)
+			va = g.Vaults[rapid.IntRange(0, len(g.Vaults)-1).Draw(t, "vaultIdx")]
+			vl := g.vaultInfo[va]
+			if rapid.IntRange(0, 5).Draw(t, "vaultNonceReal") > 0 {
+				nonce = vl.Nonce
+			}
+			if rapid.IntRange(0, 5).Draw(t, "vaultAdmin") > 0 && len(vl.AdminAuthority.Addresses) > 0 {
+				adm := vl.AdminAuthority.Addresses[rapid.IntRange(0, len(vl.AdminAuthority.Addresses)-1).Draw(t, "vaultAdminIdx")]
+				if x := g.actorByAddr(adm); x != nil {
+					a, acct = x, g.V.Account(x.Addr)
+					bal = &acct.General.Balance
+				}
+			}
+		}
 		var act vault.Action
-		switch rapid.IntRange(0, 3).Draw(t, "vaultAct") {
+		switch rapid.IntRange(0, 5).Draw(t, "vaultAct") {
 		case 0:
 			act.Suspend = &vault.ActionSuspend{}
 		case 1:
@@ -311,9 +400,14 @@ func (g *TxGen) Gen(t *rapid.T) *TxDesc {
 		case 2:
 			act.ExecuteMessage = &vault.ActionExecuteMessage{Method: staking.MethodTransfer, Body: cbor.Marshal(&staking.Transfer{To: a.Addr, Amount: q(uint64(rapid.IntRange(0, 100).Draw(t, "vaultAmt")))})}
 		default:
-			act.UpdateWithdrawPolicy = &vault.ActionUpdateWithdrawPolicy{Address: a.Addr, Policy: vault.WithdrawPolicy{LimitAmount: q(10), LimitInterval: 2}}
+			// (content drawn from a small domain so that several admins can authorize the SAME action)
+			who := g.Actors[rapid.IntRange(0, minInt(len(g.Actors)-1, 3)).Draw(t, "vaultPolicyFor")]
+			act.UpdateWithdrawPolicy = &vault.ActionUpdateWithdrawPolicy{Address: who.Addr, Policy: vault.WithdrawPolicy{
+				LimitAmount:   q(uint64(rapid.SampledFrom([]int{0, 10, 10, 1000}).Draw(t, "vaultLimit"))),
+				LimitInterval: uint64(rapid.SampledFrom([]int{0, 2, 10, 10}).Draw(t, "vaultInterval")),
+			}}
 		}
-		method, body = vault.MethodAuthorizeAction, &vault.AuthorizeAction{Vault: va, Nonce: uint64(rapid.IntRange(0, 2).Draw(t, "vaultNonce")), Action: act}
+		method, body = vault.MethodAuthorizeAction, &vault.AuthorizeAction{Vault: va, Nonce: nonce, Action: act}
 	case "refresh":
 		// a node (re-)registers itself; when the signer is not a node, pick one and sign with it
 		na := g.nodeActor(t, a)
@@ -373,7 +467,7 @@ func (g *TxGen) Gen(t *rapid.T) *TxDesc {
 		method, body = transaction.MethodName(m), map[string]int{"a": 1}
 		note = "unbuildable method"
 	}
-	if g.Profile == "hostile" && rapid.IntRange(0, 3).Draw(t, "altenc") == 0 {
+	if strings.Contains(g.Profile, "hostile") && rapid.IntRange(0, 3).Draw(t, "altenc") == 0 {
 		// the same body in an alternative CBOR encoding a lenient decoder may accept (byte strings as integer arrays)
 		if alt, changed := AltEncode(t, body); changed {
 			body, note = alt, note+" alt-encoded"
@@ -539,6 +633,13 @@ func (g *TxGen) finish(t *rapid.T, a *Actor, acct *staking.Account, method trans
 		g.nonceAdd[a.Addr]++
 	}
 	return d
+}
+
+func minInt(a, b int) int {
+	if a < b {
+		return a
+	}
+	return b
 }
 
 func minU64(a, b uint64) uint64 {
